@@ -2,7 +2,7 @@
 From Coq Require Import List ZArith NArith String Bool Lia ZifyBool ZifyNat ZifyN.
 Import ListNotations.
 From Verif Require Import Common.V Common.Base Common.Media1Util Model.AnnexB Model.H26xWriter
-  Proofs.Media1Util Proofs.AnnexB.
+  Proofs.Media1Util Proofs.AnnexB Proofs.AnnexB4.
 Open Scope N_scope.
 
 (* ---------- the gate ---------- *)
@@ -58,16 +58,14 @@ Hypothesis depack_annexb : forall ps,
 Theorem reader_sees_nals : forall isk ps cs,
   let suffix := from_first isk (filter nonempty ps) in
   complete suffix ->
-  Forall (fun n => nal_ok n = true) (carried suffix) ->
+  Forall (fun n => nal_ok4 n = true) (carried suffix) ->
   chunks_ok cs ->
   List.concat cs = fst (write_all unm isk {| has_kf := false; dep := d0 |} ps) ->
   read_all (fun _ => false) cs = (carried suffix, "eof"%string).
 Proof.
   intros isk ps cs suffix Hc Hok Hcs Hcat.
   rewrite gate in Hcat. fold suffix in Hcat. rewrite depack_annexb in Hcat by exact Hc.
-  rewrite (roundtrip_all (fun _ => false) cs _ (fun _ => eq_refl) Hcs Hcat).
-  - rewrite map_map. cbn [snd]. rewrite map_id. reflexivity.
-  - unfold units_ok. rewrite Forall_map. cbn [snd]. exact Hok.
+  exact (roundtrip_all4 (fun _ => false) cs (carried suffix) (fun _ => eq_refl) Hcs Hcat Hok).
 Qed.
 
 End Contract.
